@@ -689,11 +689,13 @@ coap_op_obs_cnt_load_disk(coap_context_t *context) {
     observe_num = atoi(cp);
     /*
      * Need to assume 0 .. (context->observe_save_freq-1) have in addition
-     * been sent so need to round up to latest possible send value
+     * been sent so need to round up past the latest possible send value:
+     * the reply to a registration (refresh) uses the value as it is, only a
+     * notification increments it first.
      */
     observe_num = ((observe_num + context->observe_save_freq) /
                    context->observe_save_freq) *
-                  context->observe_save_freq - 1;
+                  context->observe_save_freq;
     resource_key.s = (uint8_t *)buf;
     resource_key.length = strlen(buf);
     r = coap_get_resource_from_uri_path_lkd(context, &resource_key);
